@@ -133,6 +133,9 @@ func (in *Interp) trackStop() {
 
 // own snapshots the backing store of a caller-owned slice (including spare capacity).
 func (in *Interp) own(v Value, tag string) {
+	if iv, isIface := v.(Iface); isIface {
+		v = iv.v
+	}
 	s, ok := v.(Slice)
 	if !ok || s.arr == nil {
 		return
